@@ -548,3 +548,32 @@ def np_pad(ex, args, kwargs, node):
     if a.ghost.get("corder") is True:
         r.ghost["corder"] = True
     return r
+
+
+@model("numpy.argwhere")
+def np_argwhere(ex, args, kwargs, node):
+    """np.argwhere(a) for a 1-D array: the positions of the non-zero entries, increasing, as an (L, 1) array"""
+    (a,) = args
+    if not isinstance(a, Arr) or a.rank != 1:
+        raise Unsupported("argwhere of something else than a 1-D array")
+    if a.kind == "bool":
+        mask = a
+    else:
+        zero = to_z3(0, a.kind)
+        mask = Arr.from_lambda(a.shape, "bool", lambda i: a.sel(i) != zero)
+    (idx,) = np_where1(ex, [mask], {}, node)
+    r = Arr.from_lambda([idx.shape[0], 1], "int", lambda t, c: idx.sel(t))
+    r.ghost.update(owner="fresh", corder=True, sorted_unique_flat=idx)
+    return r
+
+
+@model("numpy.unique")
+def np_unique(ex, args, kwargs, node):
+    a = args[0]
+    if kwargs or len(args) > 1:
+        raise Unsupported("np.unique with options")
+    src = getattr(a, "ghost", {}).get("sorted_unique_flat") if isinstance(a, Arr) else None
+    if src is None:
+        raise Unsupported("np.unique of an array not known to be strictly increasing")
+    trusted(ex, "numpy.unique of a strictly increasing sequence is the flattened sequence itself")
+    return src
